@@ -39,6 +39,7 @@ type Opts struct {
 	HookMax       time.Duration            // upper bound of a vsleep delay (default 2µs)
 	HookDelays    map[string]time.Duration // fixed delay per site (overrides the seeded one)
 	LisCloseDelay time.Duration            // closing the listener takes this long
+	WriteYields   int                      // every Write by corebgp yields the processor that many times first
 	CloseYields   int                      // every Close by corebgp yields the processor that many times first
 	CloseDelay    time.Duration            // every Close by corebgp takes this long (only for worlds in which Server.mu is never contended)
 	Quiet         bool                     // no event log, no hook counters (race passes)
@@ -603,6 +604,7 @@ func (w *World) newPair(a0, a1 netip.AddrPort) *memnet.Pair {
 	p := memnet.NewPair(id, a0, a1)
 	p.CloseDelay0 = w.O.CloseDelay
 	p.CloseYields0 = w.O.CloseYields
+	p.WriteYields0 = w.O.WriteYields
 	w.pairs = append(w.pairs, p)
 	w.mu.Unlock()
 	return p
